@@ -245,6 +245,14 @@ def programs(level):
                 for blk2 in B1[2:5]:
                     out.append([("if", [(c, blk), (c2, blk2)], None)])
                     out.append([("if", [(c, blk), (c2, blk2)], B1[1])])
+    # --- chains with TWO elif arms (and an else): the condition carried on to later arms is a running conjunction
+    for c1 in ("x<y", "b", "x==1"):
+        for c2 in ("x==1", "~b", "x<y"):
+            for c3 in ("b", "y==3", "x>=4"):
+                if len({c1, c2, c3}) < 3:
+                    continue
+                out.append([("if", [(c1, [A[0]]), (c2, [A[1]]), (c3, [A[2]])], [A[4]])])
+                out.append([("if", [(c1, [A[4]]), (c2, [A[0]]), (c3, [A[3]])], None)])
     # --- loops, nesting 1
     for mx in (2, 3):
         for blk in blocks1(LA):
